@@ -380,7 +380,10 @@ def run(ctx, obls):
                 w = None
                 if o.witness:
                     import exec_engine
-                    w = exec_engine.witness_search(ctx, o)
+                    cache = ctx.setdefault("witness_cache", {})
+                    if o.witness not in cache:
+                        cache[o.witness] = exec_engine.witness_search(ctx, o)
+                    w = cache[o.witness]
                 if w:
                     oc["witness"] = w
                     oc["input_found"] = True
